@@ -248,10 +248,11 @@ func genFkey(c *ctx, alg int) fkey {
 	default:
 		k[iana.KeyParameterKid] = c.r.bytes(1 + c.r.intn(4))
 	}
+	nsize := pick(c.r, []int{7, 12, 13})
 	if c.r.intn(3) == 0 {
-		k[iana.KeyParameterBaseIV] = c.r.bytes(pick(c.r, []int{6, 12, 13}))
+		k[iana.KeyParameterBaseIV] = c.r.bytes(pick(c.r, []int{6, 12, 13, nsize, nsize, nsize}))
 	}
-	return fkey{k: k, secret: c.r.bytes(1 + c.r.intn(5)), nsize: pick(c.r, []int{7, 12, 13}), fail: c.r.intn(25) == 0}
+	return fkey{k: k, secret: c.r.bytes(1 + c.r.intn(5)), nsize: nsize, fail: c.r.intn(25) == 0}
 }
 
 func genLeaf(c *ctx) (*cose.Recipient, string) {
@@ -527,6 +528,141 @@ func reuseSeq(kind string, f fkey, a, b, extA, extB []byte) (payload []byte, err
 	}
 }
 
+// one decoded object, two calls with (possibly) different external data; the outcome of the second
+func reverifySeq(kind string, f fkey, a, ext1, ext2 []byte) (payload []byte, err error) {
+	switch kind {
+	case "KSign1":
+		m := &cose.Sign1Message[[]byte]{}
+		if err = m.UnmarshalCBOR(a); err == nil {
+			m.Verify(f, ext1)
+			err = m.Verify(f, ext2)
+		}
+		return m.Payload, err
+	case "KMac0":
+		m := &cose.Mac0Message[[]byte]{}
+		if err = m.UnmarshalCBOR(a); err == nil {
+			m.Verify(f, ext1)
+			err = m.Verify(f, ext2)
+		}
+		return m.Payload, err
+	case "KMac":
+		m := &cose.MacMessage[[]byte]{}
+		if err = m.UnmarshalCBOR(a); err == nil {
+			m.Verify(f, ext1)
+			err = m.Verify(f, ext2)
+		}
+		return m.Payload, err
+	case "KEnc0":
+		m := &cose.Encrypt0Message[[]byte]{}
+		if err = m.UnmarshalCBOR(a); err == nil {
+			m.Decrypt(f, ext1)
+			m.Payload = nil
+			err = m.Decrypt(f, ext2)
+		}
+		return m.Payload, err
+	default:
+		m := &cose.EncryptMessage[[]byte]{}
+		if err = m.UnmarshalCBOR(a); err == nil {
+			m.Decrypt(f, ext1)
+			m.Payload = nil
+			err = m.Decrypt(f, ext2)
+		}
+		return m.Payload, err
+	}
+}
+
+// the producing object: sign / compute / encrypt with extP, then verify / decrypt on the same object with extC
+func producerSeq(kind string, f fkey, prot, unprot cose.Headers, payload, extP, extC []byte, recips []*cose.Recipient) (enc, pl []byte, err, perr error) {
+	switch kind {
+	case "KSign1":
+		m := &cose.Sign1Message[[]byte]{Protected: prot, Unprotected: unprot, Payload: payload}
+		if enc, perr = m.SignAndEncode(f, extP); perr != nil {
+			return
+		}
+		err = m.Verify(f, extC)
+		return enc, m.Payload, err, nil
+	case "KMac0":
+		m := &cose.Mac0Message[[]byte]{Protected: prot, Unprotected: unprot, Payload: payload}
+		if enc, perr = m.ComputeAndEncode(f, extP); perr != nil {
+			return
+		}
+		err = m.Verify(f, extC)
+		return enc, m.Payload, err, nil
+	case "KMac":
+		m := &cose.MacMessage[[]byte]{Protected: prot, Unprotected: unprot, Payload: payload}
+		for _, r := range recips {
+			if perr = m.AddRecipient(r); perr != nil {
+				return
+			}
+		}
+		if enc, perr = m.ComputeAndEncode(f, extP); perr != nil {
+			return
+		}
+		err = m.Verify(f, extC)
+		return enc, m.Payload, err, nil
+	case "KEnc0":
+		m := &cose.Encrypt0Message[[]byte]{Protected: prot, Unprotected: unprot, Payload: payload}
+		if enc, perr = m.EncryptAndEncode(f, extP); perr != nil {
+			return
+		}
+		m.Payload = nil
+		err = m.Decrypt(f, extC)
+		return enc, m.Payload, err, nil
+	default:
+		m := &cose.EncryptMessage[[]byte]{Protected: prot, Unprotected: unprot, Payload: payload}
+		for _, r := range recips {
+			if perr = m.AddRecipient(r); perr != nil {
+				return
+			}
+		}
+		if enc, perr = m.EncryptAndEncode(f, extP); perr != nil {
+			return
+		}
+		m.Payload = nil
+		err = m.Decrypt(f, extC)
+		return enc, m.Payload, err, nil
+	}
+}
+
+func plainLabels(h cose.Headers) bool {
+	for k := range h {
+		switch k.(type) {
+		case int, string:
+		default:
+			return false
+		}
+	}
+	return true
+}
+
+func cloneHeaders(h cose.Headers) cose.Headers {
+	if h == nil {
+		return nil
+	}
+	out := cose.Headers{}
+	for k, v := range h {
+		out[k] = v
+	}
+	return out
+}
+
+// recipients are rebuilt from their encoding (AddRecipient marks them as attached)
+func cloneRecips(rs []*cose.Recipient) []*cose.Recipient {
+	var out []*cose.Recipient
+	for _, r := range rs {
+		b, err := r.MarshalCBOR()
+		if err != nil {
+			return nil
+		}
+		n := &cose.Recipient{}
+		if n.UnmarshalCBOR(b) != nil {
+			return nil
+		}
+		out = append(out, n)
+	}
+	return out
+}
+
 func freshSeq(kind string, f fkey, b, extB []byte) (payload []byte, err error) {
 	return reuseSeq(kind, f, []byte{0xff}, b, nil, extB)
 }
@@ -751,7 +887,7 @@ func streamMsg(c *ctx) {
 			if (kind == "KEnc0" || kind == "KEnc") && c.r.intn(3) == 0 {
 				unprot[iana.HeaderParameterIV] = c.r.bytes(f.nsize)
 			}
-			if (kind == "KEnc0" || kind == "KEnc") && c.r.intn(6) == 0 {
+			if (kind == "KEnc0" || kind == "KEnc") && (c.r.intn(6) == 0 || f.k.Has(iana.KeyParameterBaseIV) && !unprot.Has(iana.HeaderParameterIV) && c.r.bool()) {
 				unprot[iana.HeaderParameterPartialIV] = c.r.bytes(1 + c.r.intn(5))
 			}
 		}
@@ -768,8 +904,11 @@ func streamMsg(c *ctx) {
 			}
 		}
 		draw := c.r.bytes(f.nsize)
+		prot0, unprot0 := cloneHeaders(prot), cloneHeaders(unprot)
+		recips0 := cloneRecips(recips)
 		rand.Reader = &counterReader{next: draw}
 		protT, unprotT := qOptMap(prot), qOptMap(unprot) // before the library fills them in
+		fT, keyT := f.coq(), qMap(f.k)                   // and before it could touch the key
 		var data []byte
 		var err error
 		p, pm := catch(func() {
@@ -788,7 +927,10 @@ func streamMsg(c *ctx) {
 			c.fail(failure{Op: "produce", What: "panic while producing a message", Input: line, Observed: "panic: " + pm, Expected: "bytes or error", Case: line})
 			continue
 		}
-		c.addCase(fmt.Sprintf("MProd %s %s %s %s %s %s %s %s %s", kind, f.coq(), protT, unprotT, payT, extT, qHex(draw), qList(recT), optOut(data, err)),
+		if qMap(f.k) != keyT {
+			c.fail(failure{Op: "produce", What: "producing a message changed the caller's key", Input: line, Observed: qMap(f.k), Expected: keyT, Case: line})
+		}
+		c.addCase(fmt.Sprintf("MProd %s %s %s %s %s %s %s %s %s", kind, fT, protT, unprotT, payT, extT, qHex(draw), qList(recT), optOut(data, err)),
 			line+fmt.Sprintf(" => %s", short(fmt.Sprintf("%x err=%v", data, err))))
 		c.nontriv(fmt.Sprintf("produce|%s|%s|%v", kind, ptype, err == nil))
 		c.count(fmt.Sprintf("produce %s payload=%s ok=%v", kind, ptype, err == nil))
@@ -862,6 +1004,40 @@ func streamMsg(c *ctx) {
 					c.fail(failure{Op: "object-reuse", What: "a message object that already verified one message treats the next one differently from a fresh object", Input: line + short(fmt.Sprintf("|second=%x", second)),
 						Observed: short(fmt.Sprintf("reused: payload=%x err=%v", pl1, err1)), Expected: short(fmt.Sprintf("fresh: payload=%x err=%v", pl2, err2)), Case: line})
 				}
+			}
+		}
+		// one decoded object asked twice with different external data, and the producing object asked to verify / decrypt:
+		// every call must answer as a fresh object would
+		if !f.fail {
+			e2 := append(append([]byte{}, ext...), 0x5a)
+			for _, pair := range [][2][]byte{{ext, e2}, {e2, ext}, {ext, nil}, {ext, ext}} {
+				pl1, err1 := reverifySeq(kind, f, data, pair[0], pair[1])
+				pl2, err2 := freshSeq(kind, f, data, pair[1])
+				c.eval()
+				if (err1 == nil) != (err2 == nil) || err1 == nil && !bytes.Equal(pl1, pl2) {
+					c.fail(failure{Op: "object-reuse", What: "the second Verify / Decrypt on one decoded object answers differently from a fresh object", Input: line + short(fmt.Sprintf("|ext1=%x|ext2=%x", pair[0], pair[1])),
+						Observed: short(fmt.Sprintf("second call: payload=%x err=%v", pl1, err1)), Expected: short(fmt.Sprintf("fresh: payload=%x err=%v", pl2, err2)), Case: line})
+				}
+			}
+			// (header labels of a Go type other than int read differently before and after encoding: outside the CoseMap contract)
+			if pb, ok := payload.([]byte); ok && plainLabels(prot0) && plainLabels(unprot0) {
+				for _, e := range [][]byte{e2, ext} {
+					rand.Reader = &counterReader{next: draw}
+					enc, pl1, err1, perr := producerSeq(kind, f, cloneHeaders(prot0), cloneHeaders(unprot0), pb, ext, e, recips0)
+					rand.Reader = saved
+					if perr != nil {
+						continue
+					}
+					pl2, err2 := freshSeq(kind, f, enc, e)
+					c.eval()
+					if (err1 == nil) != (err2 == nil) || err1 == nil && !bytes.Equal(pl1, pl2) {
+						c.fail(failure{Op: "object-reuse", What: "Verify / Decrypt on the producing object answers differently from a fresh object decoding its encoding", Input: line + short(fmt.Sprintf("|ext-produce=%x|ext-consume=%x", ext, e)),
+							Observed: short(fmt.Sprintf("producer object: payload=%x err=%v", pl1, err1)), Expected: short(fmt.Sprintf("fresh: payload=%x err=%v", pl2, err2)), Case: line})
+					}
+				}
+			}
+			if qMap(f.k) != keyT {
+				c.fail(failure{Op: "consume", What: "consuming messages changed the caller's key", Input: line, Observed: qMap(f.k), Expected: keyT, Case: line})
 			}
 		}
 		// foreign encodings that must verify, and their re-encoding
@@ -1059,6 +1235,32 @@ func streamC08Probe(c *ctx) {
 			f.fail = false
 			d, tag := foreignMessage(c, kind, f, nil, true)
 			consumeCase(c, kind, f, d, nil, "None", tag+"-payload-not-strict", "any")
+		}
+	}
+	// one label held under two Go integer types, for every pair of types: refused, never merged or written twice
+	// (the encoder is asked several times: a merge picks its survivor by map iteration order)
+	intOf := []func(v int) any{
+		func(v int) any { return v }, func(v int) any { return int8(v) }, func(v int) any { return int16(v) }, func(v int) any { return int32(v) }, func(v int) any { return int64(v) },
+		func(v int) any { return uint(v) }, func(v int) any { return uint8(v) }, func(v int) any { return uint16(v) }, func(v int) any { return uint32(v) }, func(v int) any { return uint64(v) }}
+	for a := 0; a < len(intOf); a++ {
+		for b := a + 1; b < len(intOf); b++ {
+			v := pick(c.r, []int{1, 4, 5, 23, 24, 100})
+			h := cose.Headers{intOf[a](v): []byte("first"), intOf[b](v): []byte("second"), 33: true}
+			outs := map[string]bool{}
+			var hb []byte
+			var herr error
+			for rep := 0; rep < 8; rep++ {
+				hb, herr = h.Bytes()
+				outs[fmt.Sprintf("%x %v", hb, herr == nil)] = true
+				kb, kerr := key.Key(h).MarshalCBOR()
+				outs[fmt.Sprintf("%x %v", kb, kerr == nil)] = true
+			}
+			c.addCase(fmt.Sprintf("MHdrEnc %s %s", qMap(h), optOut(hb, herr)), short(fmt.Sprintf("label-twins|%T|%T|%d", intOf[a](v), intOf[b](v), v)))
+			c.count("label-twins")
+			if len(outs) != 1 {
+				c.fail(failure{Op: "label-twins", What: "a map holding one label under two Go integer types encodes differently from call to call", Input: describe(h),
+					Observed: fmt.Sprint(outs), Expected: "one outcome (an error)", Case: fmt.Sprintf("label-twins|%T|%T|%d", intOf[a](v), intOf[b](v), v)})
+			}
 		}
 	}
 	for i := 0; i < 12; i++ {
